@@ -8,14 +8,15 @@ class)."""
 from vlib.framework import BaseCheck, CaseResult
 
 HOPS = [('thrift', 'open'), ('mux', 'open'), ('thrift', 'pool-connect'), ('thrift', 'pool-queue'),
-        ('mux', 'send-queue'), ('thrift', 'wire'), ('mux', 'wire'), ('thrift', 'mixed'), ('mux', 'mixed')]
+        ('mux', 'send-queue'), ('thrift', 'wire'), ('mux', 'wire'), ('thrift', 'mixed'), ('mux', 'mixed'),
+        ('thrift', 'blocked-write')]
 
 
 class C12(BaseCheck):
   ID = 'C12'
   LEVEL = 'fault_enumeration'
   RULE = ('case = (stack, hop at expiry) x seeded offset of the deadline relative to the hop\'s hand-over '
-          'instant (20%: exactly on it / on the 10 ms grid = boundary class), hops: open (client still '
+          'instant (20%: exactly on it / on the 10 ms grid = boundary class), hops: blocked-write (serial: the deadline passes inside the blocked write of the request itself), open (client still '
           'connecting), pool-connect (second pooled connection still connecting), pool-queue (waiting for '
           'the only connection), send-queue (mux writer stalled), wire (written, unanswered or answered '
           'late), mixed (random combination). Every byte range the server decoded is mapped back to the '
@@ -131,6 +132,17 @@ class C12(BaseCheck):
           env.advance(rng.random() * stall * 0.6)
       env.advance(stall * 8 + 0.3)
       srv.sim.send_delay = None
+    elif hop == 'blocked-write':
+      # serial transport: the write of the request itself blocks (the peer stops draining after a
+      # prefix of the frame) and the deadline passes inside that write; the peer drains again later
+      stall = rng.choice([0.05, 0.3])
+      srv.sim.send_delay = lambda conn: stall
+      for _ in range(rng.randint(1, 3)):
+        call(max(0.004, stall * rng.choice([0.3, 0.6]) + off()), {'delay': 0.001})
+        env.advance(stall * 1.5)
+      srv.sim.send_delay = None
+      call(1.0, {'delay': 0.001})
+      env.advance(stall * 3 + 0.3)
     elif hop == 'wire':
       for _ in range(rng.randint(1, 5)):
         T = rng.choice([0.02, 0.1, 0.4])
@@ -182,7 +194,13 @@ class C12(BaseCheck):
         # A write that had begun before the TimeoutError counts as "on the wire" (a stalled
         # writer finishes the frame it started); the violation is a request whose first byte
         # is written afterwards.
-        late = [x for x in sends if x[2] > s] if min(x[2] for x in sends) > s else []
+        # (mux only: its send loop is a greenlet of its own and cannot be interrupted by one call's
+        # deadline; the serial transport's own timeout interrupts a blocked write at the deadline,
+        # so there no part of the request may follow the TimeoutError.)
+        if kind == 'mux':
+          late = [x for x in sends if x[2] > s] if min(x[2] for x in sends) > s else []
+        else:
+          late = [x for x in sends if x[2] > s]
         if late:
           out.violate('sent-after-timeout',
                       'call %d was handed TimeoutError %.4fs after issue (T=%.4f) and %d byte(s) of its request '
